@@ -98,6 +98,10 @@ def alph_c10():
         # scalar where a relation is required / relation where a scalar is required
         bad("scalar-as-relation", "join 5 (==k)"), bad("scalar-as-relation", "append 3"),
         bad("scalar-as-relation", "join (a + 1) (==k)"),
+        # a call of a scalar function where a relation is required
+        bad("scalar-as-relation", "append (min 3)"), bad("scalar-as-relation", "join (math.abs 3) (==k)"),
+        # the same name computed on both sides of a join: a later bare reference has two candidates
+        derive(item(lit(1), "zz")), join("inner", [from_("u"), derive(item(lit(2), "zz"))], eqcol("k"), alias="w"), select(item("zz")),
         bad("relation-as-scalar", "filter (from u)"), bad("relation-as-scalar", "derive {x = (from u | take 1)}"),
     ]
     return base[:14] + base[14:20] + extra
